@@ -752,6 +752,53 @@ fn public_key_checksums(ctx: &Ctx) {
     }
 }
 
+
+/// In-process flavour of the spelling lane: a keyring that lists one key twice in different spellings must be
+/// rejected, and a lone leniently spelled entry, if the real decoder turns it into key K, must be found by K.
+fn key_spellings(ctx: &Ctx) {
+    let mut rng = Rng::fork(ctx.seed, "C17-spellings");
+    for round in 0..ctx.tier.pick(3, 40) {
+        let pk = refspec::pubkey_of(&rng.arr32());
+        let good = refspec::encode_pk(&pk);
+        let other = refspec::encode_pk(&refspec::pubkey_of(&rng.arr32()));
+        for (what, text) in crate::c17cli::key_spellings(&good, &mut rng) {
+            ctx.eval();
+            let both = format!("[Key]\nName = alice\nPublicKey = {}\n\n[Key]\nName = bob\nPublicKey = {}\n\n[Key]\nName = mallory\nPublicKey = {}\n", good, other, text);
+            let alone = format!("[Key]\nName = bob\nPublicKey = {}\n\n[Key]\nName = mallory\nPublicKey = {}\n", other, text);
+            let decoded = |k: &Keyring, n: &str| -> Option<Vec<u8>> { k.get_key(n).and_then(|e| Keyring::decode_public_key(&e.public_key).ok()).map(|p| p.as_bytes().to_vec()) };
+            let r = guarded(|| {
+                let mut out: Vec<(&'static str, String)> = Vec::new();
+                if let Ok(k) = Keyring::new(&both) {
+                    if decoded(&k, "mallory").as_deref() == Some(&pk[..]) && decoded(&k, "alice").as_deref() == Some(&pk[..]) {
+                        out.push(("C17:accepted-a-keyring-that-must-be-rejected:same public key listed twice in different spellings", format!("{:?}", k).chars().take(400).collect()));
+                    }
+                }
+                if let Ok(k) = Keyring::new(&alone) {
+                    if decoded(&k, "mallory").as_deref() == Some(&pk[..]) {
+                        let canonical = Keyring::encode_public_key(&crate::kio::pk(&pk));
+                        if k.get_name_from_key(&canonical).as_deref() != Some("mallory") {
+                            out.push(("C17:accepted:entry-that-decodes-to-a-key-is-not-found-by-that-key", format!("{:?}", k).chars().take(400).collect()));
+                        }
+                    }
+                }
+                out
+            });
+            match r {
+                Err(p) => ctx.violation(&format!("C17:parser-panic:{}", panic_site(&p)), json!({"spelling": what, "public_key_text": text})),
+                Ok(v) if !v.is_empty() => {
+                    for (sig, parsed) in v {
+                        ctx.violation(sig, json!({"spelling": what, "public_key_text": text, "canonical_text": good, "parsed": parsed}));
+                    }
+                }
+                Ok(_) => {
+                    ctx.seen("other spelling of a public key: never a second entry for the same key, lookups consistent");
+                    ctx.distinct(&format!("spell|{}|{}", round, what));
+                }
+            }
+        }
+    }
+}
+
 fn boundary_name_block(ctx: &Ctx) {
     let mut rng = Rng::fork(ctx.seed, "C17-boundary");
     let pk = refspec::encode_pk(&refspec::pubkey_of(&rng.arr32()));
@@ -828,6 +875,7 @@ pub fn run(ctx: &Ctx) {
     tool_written(ctx);
     documented_layout(ctx);
     public_key_checksums(ctx);
+    key_spellings(ctx);
     no_crash_on_text(ctx);
     boundary_name_block(ctx);
     crate::c17cli::cli_lanes(ctx);
